@@ -164,9 +164,17 @@ def gen_command(r, text, op_kw, flags):
             return ["test"], "test"
         if path.startswith("-") or (value or "").startswith("-"):
             return ["test"], "test"
+        import copy
+
+        try:
+            copy.deepcopy(model).apply(op, path, value)
+        except A.Refuse as rf:
+            cls = cls + "!must-fail:" + rf.reason
+        except A.Unspecified:
+            pass
         return ([op, path, value] if op == "set" else [op, path]), "edit:" + cls
     y = r.random()
-    if view.valid and view.core is not None and y < 0.5:
+    if view.valid and view.core is not None and y < 0.3:
         # names that must be quoted (C12's critical classes), spelled with raw characters or with NPath escapes
         nm = r.choice(["b\n", "a b", "x\ty", 'q"r', "é", "a.b", "${x}", "1st", "if", "back\\slash", "", "-", "a\nb", "tab\t"])
         seg = N.encode_segment(nm)
@@ -174,16 +182,18 @@ def gen_command(r, text, op_kw, flags):
             seg = seg.replace("\n", "\\n").replace("\t", "\\t")
         path = (r.choice(["", "", "new."]) + seg)
         return ["set", path, r.choice(["1", '"v"', "[ ]"])], "edit:hard-name"
-    if y < 0.4:
-        return ["set", r.choice(["a..b", 'a."b', "", "@", "a b"]) or "a..b", "1"], "bad-path"
-    if y < 0.7:
+    if y < 0.55:
+        return ["set", r.choice(["a..b", 'a."b', "", "@", "a b", " a", "a ", "a\n", "\ta", "new ", " @x", '"two words" ']) or "a..b", "1"], "bad-path"
+    if y < 0.8:
         return ["set", "a", r.choice(["", "1 2;", "{ a = ; }", "[ 1"])], "bad-value"
     return ["rm", "no_such_key"], "missing-key"
 
 
 def replay(case):
     with tempfile.TemporaryDirectory() as td:
-        fails, _ = judge(case["argv"], case["text"], td)
+        fails, outcome = judge(case["argv"], case["text"], td)
+        if case.get("must_fail") and outcome == "edit-ok":
+            fails = fails + [("exit-zero-on-edit-that-must-fail:" + case["must_fail"], {"argv": case["argv"]})]
         if case.get("subprocess"):
             fails += subprocess_check(case["argv"], case["text"], td)
     return fails
@@ -213,9 +223,13 @@ def run_shard(sh):
             argv, cmdcls = gen_command(r, text, op_kw, flags)
             if any(a == "" for a in argv[1:2]) and argv[0] != "test":
                 pass
-            case = {"argv": argv, "text": text}
+            case = {"argv": argv, "text": text, "must_fail": cmdcls.split("!must-fail:")[1] if "!must-fail:" in cmdcls else None}
             nima.reset_state()
             fails, outcome = judge(argv, text, tmpdir)
+            if "!must-fail:" in cmdcls and outcome == "edit-ok":
+                # the reference model of C05/C08 refuses this edit (missing key, path through a leaf, missing scope layer…):
+                # "exit 0 only on success" — there is no success to report
+                fails = fails + [("exit-zero-on-edit-that-must-fail:" + cmdcls.split("!must-fail:")[1], {"argv": argv})]
             if sub_budget[0] > 0 and r.random() < 0.1:
                 sub_budget[0] -= 1
                 case["subprocess"] = True
